@@ -80,6 +80,7 @@ type Op struct {
 	Dt        int64        `json:"dt,omitempty"`        // block: time step (ns)
 	N         int          `json:"n,omitempty"`         // block: number of blocks
 	Params    *ParamSpec   `json:"params,omitempty"`
+	Opts      bool         `json:"opts,omitempty"`  // updbind: also sends an options document
 	Denom     string       `json:"denom,omitempty"` // rate
 	Rate      string       `json:"rate,omitempty"`
 }
@@ -486,7 +487,11 @@ func (m *machine) doUpdBind(op Op) error {
 		pj = op.Pricing.JSON()
 	}
 	sr, err := m.step("updbind", func() chain.Result {
-		return m.s.UpdateBinding(m.user(owner), SvcProviderAddr(prov), name, coin(baseDenom, add), pj, op.QoS)
+		opts := ""
+		if op.Opts {
+			opts = `{"o":1}`
+		}
+		return m.s.UpdateBinding(m.user(owner), SvcProviderAddr(prov), name, coin(baseDenom, add), pj, op.QoS, opts)
 	})
 	if err != nil {
 		return err
@@ -495,7 +500,10 @@ func (m *machine) doUpdBind(op Op) error {
 	want := b != nil && m.user(b.owner).Equals(m.user(owner))
 	why := "binding/owner"
 	if want {
-		updated := op.QoS != 0 || add.Sign() > 0 || op.Pricing != nil
+		updated := op.QoS != 0 || add.Sign() > 0 || op.Pricing != nil || op.Opts
+		if !updated {
+			m.cl["updbind-empty"]++ // nothing to change: accepted as a no-op whatever the deposit
+		}
 		if op.QoS != 0 && op.QoS > uint64(m.params.MaxTimeout) {
 			want, why = false, "qos"
 		}
@@ -711,6 +719,10 @@ func (m *machine) doCall(op Op) error {
 			}
 		} else {
 			c.freq, c.total = 0, 0
+		}
+		if !op.Repeated && (op.Freq != 0 || op.Total != 0) {
+			// the repetition fields of a one-shot call are not validated and must not matter: one batch, then removed
+			m.cl["oneshot-with-repeated-fields"]++
 		}
 		m.ctxs = append(m.ctxs, c)
 		m.ctxByID[id] = c
@@ -928,6 +940,10 @@ func (m *machine) doUpdCtx(op Op) error {
 		}
 		c.clean, c.modified = false, true
 		m.cl["context-updated"]++
+		if !c.repeated && (op.Freq != 0 || op.Total != 0) {
+			// accepted repetition settings on a one-shot context: it stays one-shot (c.repeated is not re-read)
+			m.cl["oneshot-updated-with-repeated-fields"]++
+		}
 	}
 	if err := m.wantCallbacks("updctx", sr.cbs, nil); err != nil {
 		return err
@@ -1232,8 +1248,12 @@ func (m *machine) doBlock(dt int64) error {
 			}
 			continue
 		}
-		if m.c08() && expiredBatch[c] && !c.repeated {
-			return m.failf("oneshot-not-removed", "one-shot context %s still exists after its batch expired at height %d", c.id, H)
+		if expiredBatch[c] && !c.repeated {
+			sig := "oneshot-not-removed"
+			if !m.c08() {
+				sig = "sync-context" // C07: the model removes a one-shot context with its batch
+			}
+			return m.failf(sig, "one-shot context %s still exists after its batch expired at height %d", c.id, H)
 		}
 		prevState := c.state
 		issued := false
